@@ -14,6 +14,12 @@ import vcommon  # noqa: E402
 def main():
     b = vcommon.repo_build("plain")
     gen.generate(b)
+    try:
+        sys.path.insert(0, HERE)
+        import c11_lib
+        c11_lib.gen_footprint(b)
+    except Exception as e:      # noqa: BLE001
+        print('footprint generation skipped:', e)
     import re
     exes = re.findall(r'\[\[lean_exe\]\]\s*name\s*=\s*"([^"]+)"', open(os.path.join(vcommon.LEAN, "lakefile.toml")).read())
     ok, out = vcommon.lake_build(["OvniModel"] + exes)
